@@ -162,3 +162,37 @@ Fixpoint mon_cache_go (mx : Z) (obs : list Z) : bool :=
   end.
 Definition mon_cache (inp obs : list Z) : bool :=
   match inp with mx :: _ => mon_cache_go mx obs | [] => false end.
+
+(* kind 304: a Get split into its two halves (lookup under the cache lock, read under the item lock) with
+   other Gets in between.  ops: 0 k size = a whole Get | 1 k _ = the lookup half, for a key that is cached
+   | 2 _ _ = the read half of the pending lookup.  The read half returns the block as it was when it was
+   looked up, whether or not the block has been evicted in the meantime. *)
+Definition bump (c : cache) (k : Z) : cache :=
+  let t := ctick c + 1 in
+  {| citems := map (fun x => if ckey x =? k then {| ckey := k; csize := csize x; cstamp := t |} else x) (citems c);
+     ctotal := ctotal c; cmax := cmax c; ctick := t |}.
+(* pending = (key, size at lookup, the looked-up item is still the one in the cache) *)
+Definition still_there (c : cache) (p : option (Z * Z * bool)) : option (Z * Z * bool) :=
+  match p with
+  | Some (k, s, alive) => Some (k, s, alive && match find_item k (citems c) with Some _ => true | None => false end)
+  | None => None
+  end.
+Fixpoint run_split_go (c : cache) (pending : option (Z * Z * bool)) (l : list Z) : list Z :=
+  match l with
+  | 0 :: k :: size :: r => let '(c', hit) := cache_get c k size in
+                           b2z hit :: zlen (citems c') :: ctotal c' :: run_split_go c' (still_there c' pending) r
+  | 1 :: k :: _ :: r => match find_item k (citems c) with
+                        | Some it => 1 :: zlen (citems c) :: ctotal c :: run_split_go c (Some (k, csize it, true)) r
+                        | None => [-5]
+                        end
+  | 2 :: _ :: _ :: r => match pending with
+                        | Some (k, s, alive) =>
+                            (* an evicted item is no longer in the access list: touching it changes nothing *)
+                            let c' := if alive then bump c k else c in
+                            s :: zlen (citems c') :: ctotal c' :: run_split_go c' None r
+                        | None => [-6]
+                        end
+  | _ => []
+  end.
+Definition run_cache_split (inp : list Z) : list Z :=
+  match inp with mx :: r => run_split_go (cache_init mx) None r | [] => [] end.
